@@ -156,6 +156,16 @@ def verus_unit(unit, workdir):
         msgs = '; '.join(d['message'] for d in res['diagnostics'][:3]) or res['raw_err'][:300]
         r['undecided'] = 'verus %s: %s' % (res['status'], msgs)
         r['diagnostics'] = res['diagnostics'][:10]
+        # an `assert(..) by(compute_only)` that evaluates to false is a verdict on the enclosing
+        # proof function, although Verus then stops before looking at the rest of the unit
+        for d in res['diagnostics']:
+            if d['level'] == 'error' and 'expression simplifies to false' in d['message'] and d['line']:
+                it, org = g.locate(d['line'])
+                name = _enclosing_fn(g, d['line'])
+                r['obligations'].append({'id': '%s/%s' % (unit, name), 'backend': 'verus', 'ok': False, 'ms': 0, 'kind': 'proof'})
+                r['failures'].append({'obligation': '%s/%s' % (unit, name), 'function': name,
+                                      'details': [{'message': d['message'] + ' (assert by(compute_only) evaluated to false)', 'gen_line': d['line'],
+                                                   'origin': list(org), 'text': d['text'], 'rendered': d['rendered']}]})
         return r
     # attribute diagnostics to items
     fails = {}
